@@ -947,7 +947,23 @@ def b_id(it, v):
     raise OutsideSubset("id()")
 
 
+def b_iter(it, f, *sentinel):
+    """iter(xs) / iter(callable, sentinel): the values are produced eagerly (bounded by MAX_LOOP calls)"""
+    if not sentinel:
+        return iter(it.iterate(f))
+    out = []
+    for _ in range(10000):
+        v = it.call_value(f, [], {})
+        if isinstance(v, Sym) or isinstance(sentinel[0], Sym):
+            raise OutsideSubset("iter(callable, sentinel) with symbolic values")
+        if v == sentinel[0]:
+            return iter(out)
+        out.append(v)
+    raise OutsideSubset("iter(callable, sentinel) did not reach its sentinel")
+
+
 BUILTINS = {
+    iter: b_iter,
     len: b_len, isinstance: b_isinstance, int: b_int, float: b_float, str: b_str, bool: b_bool,
     max: b_max, min: b_min, sum: b_sum, abs: b_abs, round: b_round, range: b_range, list: b_list, tuple: b_tuple,
     dict: b_dict, set: b_set, sorted: b_sorted, enumerate: b_enumerate, zip: b_zip, any: b_any,
@@ -972,6 +988,10 @@ def is_pure_callable(f):
     owner = getattr(f, '__self__', None)
     if owner is not None and type(owner).__module__ == 'datetime' and not isinstance(owner, type):
         return True          # methods of immutable datetime / timedelta values
+    if owner is not None and type(owner).__module__ in ('_hashlib', '_md5', '_sha1', '_sha2', '_blake2'):
+        return True          # update / hexdigest of a hash object created on this path (concrete bytes)
+    if mod in ('hashlib', '_hashlib', '_md5'):
+        return True
     if owner is not None and (type(owner).__module__ or '').split('.')[0] in ('networkx',):
         # read-only queries on a concrete graph object of a trusted library (subgraph, predecessors, nodes, ...)
         # (every path re-runs the harness from the start, so native mutation of such an object is local to the path)
